@@ -75,9 +75,55 @@ pub fn c12_variants(tier: &str, words: &[u32]) -> Vec<Variant> {
                 sb.fire(|t| matches!(t, TimerKey::ProbeRandomMember(_)));
                 sb.fire(|t| matches!(t, TimerKey::SendIndirectProbe { .. }));
             }));
+            // peers that refuted earlier: their incarnation (2) differs from
+            // the instance's own (0), mid-probe
+            let ms = members.clone();
+            s.seed_hists.push(seed(&s, |sb| {
+                sb.ev(Ev::Apply(ms.iter().map(|m| mm(*m, 2, State::Alive)).collect(), true));
+                sb.fire(|t| matches!(t, TimerKey::ProbeRandomMember(_)));
+            }));
+            // a long-lived instance: 255 completed rounds, the next round's
+            // number wraps to 0 (mid-probe with number 0)
+            if fanout == 1 || th {
+                let ms = members.clone();
+                s.seed_hists.push(seed(&s, |sb| {
+                    sb.ev(Ev::Apply(ms.iter().map(|m| al(*m)).collect(), true));
+                    sb.age_probe_number(255);
+                    sb.fire(|t| matches!(t, TimerKey::ProbeRandomMember(_)));
+                }));
+            }
             let l = if th { lim(7, 7, 12_000_000, 900.0) } else { lim(4, 4, 1_500_000, 12.0) };
             out.push(Variant { spec: s, lim: l });
         }
+    }
+    // A Feed reply that cannot list every member it picked (tight packet,
+    // five peers) right before the indirect stage: whatever a member selection
+    // leaves behind must not become an indirect helper. Lean alphabet.
+    for fanout in [1usize, 2] {
+        let me = id(A, 1).with(Renew::Next);
+        let cfg = Cfg { fanout, max_packet: 20, notify_down: false, ..Cfg::default() };
+        let mut s = CoreSpec::new(&format!("c12-feed-leftover-fanout{fanout}"), me, cfg);
+        let lean = crate::rng::menu(6, 0);
+        s.words = if crate::rng::calibrate(&lean, 6, 0).is_ok() { lean } else { words.to_vec() };
+        s.mons.c12 = true;
+        s.policy = TimerPolicy::DeadlineOrder;
+        let members = [id(B, 0), id(C, 0), id(D, 0), id(4, 0), id(5, 0)];
+        s.alpha = Alpha {
+            srcs: vec![(id(B, 0), 0, true), (id(C, 0), 0, false)],
+            kinds: vec![Kind::Announce, Kind::Ack(0), Kind::FwdAck(0), Kind::Gossip],
+            payload_kinds: vec![Kind::Gossip],
+            payloads: vec![vec![], vec![mm(id(D, 0), 0, State::Down)]],
+            ..Alpha::default()
+        };
+        s.seed_hists.push(seed(&s, |sb| {
+            sb.ev(Ev::Apply(members.iter().map(|m| al(*m)).collect(), false));
+        }));
+        s.seed_hists.push(seed(&s, |sb| {
+            sb.ev(Ev::Apply(members.iter().map(|m| al(*m)).collect(), false));
+            sb.fire(|t| matches!(t, TimerKey::ProbeRandomMember(_)));
+        }));
+        let l = if th { lim(5, 5, 6_000_000, 600.0) } else { lim(3, 3, 1_000_000, 15.0) };
+        out.push(Variant { spec: s, lim: l });
     }
     out
 }
